@@ -46,6 +46,7 @@ fn main() {
         "gen-c09" => gen_units::run_c09(&opts),
         "gen-c10" => gen_units::run_c10(&opts),
         "gen-c06" => gen_units::run_c06(&opts),
+        "gen-c17" => gen_units::run_c17(&opts),
         "c06-lookups" => gen_units::c06_lookups(&opts),
         "gen-c15" => gen_session::run(&opts),
         "c07" => gen_names::run(&opts),
